@@ -784,6 +784,14 @@ class Analyzer:
         if v[0] == "n" and v[1] is not None and term_place(v[1]) == place and v[1][0] == "v":
             self.shift(st, v[1], v[2])
             return
+        if v[0] == "n" and v[1] is not None:
+            # `i = next[i]`: the value is stated in terms of an element indexed by the destination itself; after the store that
+            # term would name another element - keep the number only by its interval
+            from .absdom import ix_places as _ixp, under as _und
+            tp_ = term_place(v[1])
+            if any(_und(q, place) or _und(place, q) for q in _ixp(tp_)) or (tp_ != place and _und(tp_, place)):
+                i_ = st.val_iv(v)
+                v = ("iv", i_[0], i_[1])
         st.kill(place, whole_local=whole)
         if whole and root in self.multidef and v[0] == "ref" and v[1] is not None and (v[1], v[2]) != (root, ("*",)):
             st.copy_facts((v[1], v[2]), (root, ("*",)))
@@ -2202,12 +2210,16 @@ class Analyzer:
         self.res.obls.append(o)
 
     def describe(self, t):
-        """line-number free description of a call / assert for keys"""
+        """line-number free description of a call / assert for keys: the reconstructed expression, followed by ` ~` and its
+        skeleton (arithmetic and constants only, every value source blanked) - see rules/panic_common.coarse_desc"""
         try:
             if t["k"] == "call":
-                return _short(show(self.eb.call_expr(t)))
+                e = self.eb.call_expr(t)
+                sk = "%s(%s)" % (e[1].split("::")[-1], ", ".join(skeleton(a) for a in e[2])) if e[0] == "call" else skeleton(e)
+                return _short(show(e)) + " ~" + _short(sk, 120)
             if t["k"] == "assert":
-                return _short("%s(%s)" % (t["ak"], ", ".join(show(self.eb.operand(o)) for o in t["ops"])))
+                ops = [self.eb.operand(o) for o in t["ops"]]
+                return _short("%s(%s)" % (t["ak"], ", ".join(show(o) for o in ops))) + " ~" + _short("%s(%s)" % (t["ak"], ", ".join(skeleton(o) for o in ops)), 120)
         except Exception:
             pass
         return t["k"]
@@ -2398,6 +2410,40 @@ class Analyzer:
 def _val_places(v):
     from .absdom import val_places
     return val_places(v)
+
+
+_ARITH_CALLS = ("min", "max", "clamp", "abs", "pow", "saturating_sub", "saturating_add", "saturating_mul", "wrapping_sub", "wrapping_add", "wrapping_mul",
+                "checked_sub", "checked_add", "checked_mul", "checked_div", "rem_euclid", "div_euclid", "unsigned_abs")
+
+
+def skeleton(e, depth=0):
+    """the arithmetic of an expression with every value source (local, field, element, opaque call) blanked: constants,
+    operators, lengths, ranges and std's arithmetic helpers stay.  `parameters[i + 1]` and `parameters[next.0 + 1]` are the
+    same skeleton; `s[3..]` and `s[2..]` are not."""
+    if depth > 30 or not isinstance(e, tuple) or not e:
+        return "_"
+    k = e[0]
+    if k == "const":
+        return str(e[1])
+    if k == "bin":
+        op = e[1][:-1] if e[1].endswith("O") else e[1]
+        a, b = skeleton(e[2], depth + 1), skeleton(e[3], depth + 1)
+        if op in ("Add", "Mul", "BitAnd", "BitOr", "BitXor", "Eq", "Ne") and b < a:
+            a, b = b, a
+        return "(%s %s %s)" % (a, op, b)
+    if k == "un":
+        return "%s(%s)" % (e[1], skeleton(e[2], depth + 1))
+    if k == "cast":
+        return skeleton(e[2], depth + 1)
+    if k in ("ref", "deref"):
+        return skeleton(e[1], depth + 1)
+    if k == "len":
+        return "len(_)"
+    if k == "call" and isinstance(e[1], str) and e[1].split("::")[-1] in _ARITH_CALLS:
+        return "%s(%s)" % (e[1].split("::")[-1], ", ".join(skeleton(a, depth + 1) for a in e[2]))
+    if k == "agg" and "::ops::Range" in str(e[1]):
+        return "%s{%s}" % (str(e[1]).split("::")[-1], ", ".join(skeleton(a, depth + 1) for a in e[2]))
+    return "_"
 
 
 def _short(s, n=160):
